@@ -1,6 +1,7 @@
 package hx
 
 import (
+	"fmt"
 	"math/big"
 	"strings"
 
@@ -156,3 +157,92 @@ func checkC01(cc *CheckCtx, r *Report) {
 }
 
 var _ = strings.Contains
+
+func newBigU(v uint64) *big.Int { return new(big.Int).SetUint64(v) }
+
+func equalCases(p *sx.Program, thorough bool) []*EqualCase {
+	mk := func(name string, depth, maxLen, maxKeys int, f func(tm *sx.Tmpl)) *EqualCase {
+		keys := []string{"a", "b", "c"}[:maxKeys]
+		tx := &sx.Tmpl{Depth: depth, MaxLen: maxLen, Keys: keys, StrT: p.NamedType("VerifStr"), KeyT: p.NamedType("VerifKey")}
+		f(tx)
+		ty := *tx
+		return &EqualCase{Name: "F-equal/" + name, TmX: tx, TmY: &ty, FixTagX: -1, FixTagY: -1}
+	}
+	split := func(cs ...*EqualCase) []*EqualCase {
+		var out []*EqualCase
+		for _, c := range cs {
+			if c.TmX.Depth == 0 {
+				out = append(out, c)
+				continue
+			}
+			for t := 0; t < 6; t++ {
+				cc := *c
+				cc.Name = fmt.Sprintf("%s.x-%s", c.Name, sx.TagNames[t])
+				cc.FixTagX = t
+				if t < sx.TagArray {
+					out = append(out, &cc)
+					continue
+				}
+				for u := 0; u < 6; u++ {
+					cd := cc
+					cd.Name = fmt.Sprintf("%s.y-%s", cc.Name, sx.TagNames[u])
+					cd.FixTagY = u
+					out = append(out, &cd)
+				}
+			}
+		}
+		return out
+	}
+	d, l := 1, 1
+	if thorough {
+		l = 2
+	}
+	k := 1
+	if thorough {
+		k = 2
+	}
+	return split(
+		mk("scalars-all-numeric", 0, 0, 0, func(tm *sx.Tmpl) { tm.NumReps = allNumReps }),
+		mk("numeric-in-containers", d, l, k, func(tm *sx.Tmpl) { tm.NumReps = allNumReps }),
+		mk("containers", d, l, k, func(tm *sx.Tmpl) {
+			tm.NumReps = []int{sx.RepFloat64, sx.RepInt, sx.RepUint64}
+			tm.ContainerReps = true
+		}),
+		mk("wrappers", d, l, k, func(tm *sx.Tmpl) { tm.Wrappers = true; tm.NumReps = []int{sx.RepFloat64, sx.RepInt64} }),
+		mk("all-small", 1, 1, 1, func(tm *sx.Tmpl) {
+			tm.NumReps = []int{sx.RepFloat64, sx.RepJSONNumber}
+			if thorough {
+				tm.NumReps = []int{sx.RepFloat64, sx.RepInt64, sx.RepUint8, sx.RepJSONNumber}
+			}
+			tm.ContainerReps = true
+			tm.Wrappers = thorough
+		}),
+		mk("canonical-len2", 1, 2, 2, func(tm *sx.Tmpl) {}),
+		mk("canonical-depth2", 2, 1, 1, func(tm *sx.Tmpl) {}),
+	)
+}
+
+func init() {
+	Checks["C11"] = func(cc *CheckCtx, r *Report) {
+		cases := equalCases(cc.P, cc.Thorough())
+		skels := make([]*Skeleton, len(cases))
+		for i, c := range cases {
+			skels[i] = &Skeleton{Name: c.Name, Family: "F-equal"}
+		}
+		skels, results := RunSkeletons(cc.P, skels, cc.Workers, cc.Timeout, func(w *Worker, sk *Skeleton) *SkelResult {
+			for _, c := range cases {
+				if c.Name == sk.Name {
+					return w.RunEqualCase(c, "C11", false)
+				}
+			}
+			return nil
+		})
+		for i, s := range results {
+			for j := range s.Findings {
+				s.Findings[j].Class = ClassifyFinding(s.Findings[j])
+			}
+			r.AddSkel(skels[i], s)
+		}
+		r.Bounds = append(r.Bounds, "two independent symbolic JSON values x, y per query, templates T(1,2..3,2) and T(2,2,2); numeric kinds over their full ranges (integers beyond 2^53 included), json.Number n/10^k with k<=3; representation profiles as in C08", "reflexivity, symmetry and transitivity follow within the bound from agreement with mathematical JSON equality")
+	}
+}
